@@ -558,7 +558,8 @@ func Expect(op Op, p St, res Result) []Alt {
 		for _, d := range op.XDel {
 			delete(keep, d)
 		}
-		ok := Alt{Name: "deleted-with-xattrs", BodyNil: true, X: XExp{Keep: keep, UserFree: true}, ExpFree: true, Event: true, NoRetCas: true}
+		// (a delete clears the expiry, through this entry point as through every other: C05, C14)
+		ok := Alt{Name: "deleted-with-xattrs", BodyNil: true, X: XExp{Keep: keep, UserFree: true}, ExpLo: 0, ExpHi: 0, Event: true, NoRetCas: true}
 		alts := []Alt{ok}
 		if badXattrArgs(op, op.XDel) != nil {
 			alts = append(alts, anyFail("badarg"))
